@@ -647,6 +647,283 @@ theorem reduce_true_dims_are_batch_dims (batch : Shape) (dim : DimArg) (keepdim 
         have hall := mapM_correct_lt l batch.length (n :: rest) hm
         exact ⟨hall n (by simp), by simp, hall, rfl⟩
 
+/-! ## clamp and where -/
+
+/-- **clamp with two tensordict bounds**: self's keys, each entry clamped by the bounds' entries under the same key
+(`None` — no bound — when a bound lacks the key); never `clamp_max` then `clamp_min` (different where lower > upper) -/
+theorem clamp_td_pointwise (fmax fmin : V → V → V) (f3 : V → Option V → Option V → V) (a l h r : KV V)
+    (hr : clamp fmax fmin f3 a (.td l) (.td h) = .ok r) :
+    keys r = keys a ∧ ∀ k, get? r k = (get? a k).map (fun v => f3 v (get? l k) (get? h k)) := by
+  simp only [clamp] at hr
+  injection hr with hr; subst hr
+  refine ⟨by simp [keys, List.map_map, Function.comp_def], fun k => ?_⟩
+  exact get?_map_vals a (fun k v => f3 v (get? l k) (get? h k)) k
+
+theorem clamp_td_perm_invariant (fmax fmin : V → V → V) (f3 : V → Option V → Option V → V) (a l l' h h' : KV V)
+    (hl : l'.Perm l) (hnl : (keys l).Nodup) (hh : h'.Perm h) (hnh : (keys h).Nodup) :
+    clamp fmax fmin f3 a (.td l') (.td h') = clamp fmax fmin f3 a (.td l) (.td h) := by
+  simp only [clamp]
+  have e1 : get? l' = get? l := funext (get?_perm hl hnl)
+  have e2 : get? h' = get? h := funext (get?_perm hh hnh)
+  rw [e1, e2]
+
+theorem clamp_mixed_raises (fmax fmin : V → V → V) (f3 : V → Option V → Option V → V) (a l : KV V) (s : V) :
+    clamp fmax fmin f3 a (.td l) (.scalar s) = .error .value ∧ clamp fmax fmin f3 a (.scalar s) (.td l) = .error .value :=
+  ⟨rfl, rfl⟩
+
+/-- one-sided clamp is the fused binary op: pointwise by key, KeyError on differing key sets -/
+theorem clamp_one_sided (fmax fmin : V → V → V) (f3 : V → Option V → Option V → V) (a h : KV V) :
+    clamp fmax fmin f3 a .none (.td h) = binop fmax a (.td h) .none ∧
+    clamp fmax fmin f3 a (.td h) .none = binop fmin a (.td h) .none := ⟨rfl, rfl⟩
+
+-- lower > upper: torch.clamp gives the upper bound; clamp_max-then-clamp_min would give the lower one
+example : clamp Nat.min Nat.max (fun x lo hi => Nat.min (Nat.max x (lo.getD 0)) (hi.getD 1000))
+    [(["a"], 5)] (.td [(["a"], 9)]) (.td [(["a"], 3)]) = .ok [(["a"], 3)] := by rfl
+
+/-! where -/
+
+theorem whereOp_selfPart_get (w : V → V → V → V) (cond ncond : V) (pad : Option V) (other : KV V) :
+    ∀ (a r : KV V), whereOp.selfPart w cond pad other a = .ok r →
+      keys r = keys a ∧ ∀ k, get? r k = (get? a k).map (fun v => w cond v ((get? other k).getD (pad.getD v)))
+  | [], r, h => by simp [whereOp.selfPart] at h; subst h; simp [get?]
+  | (k0, v0) :: rest, r, h => by
+    simp only [whereOp.selfPart] at h
+    split at h
+    · cases h
+    · rename_i r0 hr0
+      cases hrest : whereOp.selfPart w cond pad other rest with
+      | error e => simp [hrest] at h
+      | ok rs =>
+        simp only [hrest] at h; injection h with h; subst h
+        obtain ⟨hk, hg⟩ := whereOp_selfPart_get w cond ncond pad other rest rs hrest
+        refine ⟨by simp [keys] at hk ⊢; exact hk, fun k => ?_⟩
+        simp only [get?, hg k]
+        cases hgr : get? rest k with
+        | some v => simp
+        | none =>
+          simp only [Option.map_none]
+          by_cases hk0 : k0 = k
+          · subst hk0
+            simp only [↓reduceIte, Option.map_some]
+            cases hgo : get? other k0 with
+            | some y => simp [hgo] at hr0; simp [← hr0]
+            | none =>
+              cases pad with
+              | none => simp [hgo] at hr0
+              | some p => simp [hgo] at hr0; simp [← hr0]
+          · simp [hk0]
+
+/-- **where**: a key of self that `other` lacks and no pad: KeyError -/
+theorem whereOp_missing_raises (w : V → V → V → V) (cond ncond : V) (a b : KV V) (k : Path)
+    (hk : k ∈ keys a) (hb : k ∉ keys b) : whereOp w cond ncond none a b = .error .key := by
+  have : whereOp.selfPart w cond none b a = .error .key := by
+    induction a with
+    | nil => simp [keys] at hk
+    | cons q rest ih =>
+      obtain ⟨k0, v0⟩ := q
+      simp only [whereOp.selfPart]
+      by_cases e : k0 = k
+      · subst e; simp [(get?_eq_none_iff b k0).mpr hb]
+      · have hk' : k ∈ keys rest := by simp [keys] at hk ⊢; rcases hk with h | h; exact absurd h.symm e; exact h
+        cases get? b k0 <;> simp [ih hk']
+  simp [whereOp, this]
+
+theorem whereOp_otherPart_get (w : V → V → V → V) (ncond : V) (p : V) (self : KV V) :
+    ∀ (o r : KV V), whereOp.otherPart w ncond (some p) self o = .ok r →
+      ∀ k, get? r k = if hasKey self k then none else (get? o k).map (fun y => w ncond y p)
+  | [], r, h, k => by simp [whereOp.otherPart] at h; subst h; simp [get?]
+  | (k0, y0) :: rest, r, h, k => by
+    simp only [whereOp.otherPart] at h
+    by_cases hs : hasKey self k0 = true
+    · simp only [hs, ↓reduceIte] at h
+      have ih := whereOp_otherPart_get w ncond p self rest r h k
+      rw [ih]
+      by_cases hsk : hasKey self k = true
+      · simp [hsk]
+      · simp only [hsk, Bool.false_eq_true, ↓reduceIte, get?]
+        have : k0 ≠ k := fun e => hsk (e ▸ hs)
+        cases get? rest k <;> simp [this]
+    · simp only [hs, Bool.false_eq_true, ↓reduceIte] at h
+      cases hrest : whereOp.otherPart w ncond (some p) self rest with
+      | error e => simp [hrest] at h
+      | ok rs =>
+        simp only [hrest] at h; injection h with h; subst h
+        have ih := whereOp_otherPart_get w ncond p self rest rs hrest k
+        simp only [get?, ih]
+        by_cases hsk : hasKey self k = true
+        · have : k0 ≠ k := fun e => hs (e ▸ hsk)
+          simp [hsk, this]
+        · simp only [hsk, Bool.false_eq_true, ↓reduceIte]
+          cases get? rest k with
+          | some v => simp
+          | none => by_cases e : k0 = k <;> simp [e]
+
+/-- **where with a pad value**: under a key of self, `where(cond, self[k], other[k] or pad)`; under a key only `other`
+has, `where(~cond, other[k], pad)`; nothing else — all lookups by key -/
+theorem whereOp_pointwise (w : V → V → V → V) (cond ncond p : V) (a b r : KV V)
+    (h : whereOp w cond ncond (some p) a b = .ok r) (k : Path) :
+    get? r k = match get? a k with
+               | some v => some (w cond v ((get? b k).getD p))
+               | none => (get? b k).map (fun y => w ncond y p) := by
+  simp only [whereOp] at h
+  cases hs : whereOp.selfPart w cond (some p) b a with
+  | error e => simp [hs] at h
+  | ok ra =>
+    simp only [hs] at h
+    cases ho : whereOp.otherPart w ncond (some p) a b with
+    | error e => simp [ho] at h
+    | ok rb =>
+      simp only [ho] at h; injection h with h; subst h
+      rw [get?_append, whereOp_otherPart_get w ncond p a b rb ho k,
+        (whereOp_selfPart_get w cond ncond (some p) b a ra hs).2 k]
+      cases hg : get? a k with
+      | some v => simp [hasKey, hg]
+      | none => simp [hasKey, hg]; cases get? b k <;> rfl
+
+/-! ## lazy stacks as operands (members keyed `(i, key)`) -/
+
+theorem idxKey_inj (i j : Nat) (h : idxKey i = idxKey j) : i = j := by
+  unfold idxKey at h
+  have := congrArg String.toList h
+  simpa using this
+
+theorem get?_map_prefix (m : KV V) (h : String) (k : Path) :
+    get? (m.map (fun q => (h :: q.1, q.2))) (h :: k) = get? m k := by
+  induction m with
+  | nil => rfl
+  | cons q rest ih =>
+    simp only [List.map_cons, get?, ih]
+    cases get? rest k <;> simp
+
+theorem get?_map_prefix_ne (m : KV V) (h h' : String) (k : Path) (hne : h ≠ h') :
+    get? (m.map (fun q => (h :: q.1, q.2))) (h' :: k) = none := by
+  induction m with
+  | nil => rfl
+  | cons q rest ih => simp [get?, ih, hne]
+
+/-- the flattened view of a lazy stack holds, under `(i, k)`, the entry `k` of member `i` -/
+theorem get?_flattenFrom (s : Nat) : ∀ (ms : List (KV V)) (j : Nat) (k : Path),
+    get? (flattenFrom s ms) (idxKey (s + j) :: k) = (ms[j]?).bind (fun m => get? m k)
+  | [], j, k => by simp [flattenFrom, get?]
+  | m :: rest, j, k => by
+    simp only [flattenFrom]
+    rw [get?_append]
+    cases j with
+    | zero =>
+      have hrest : get? (flattenFrom (s + 1) rest) (idxKey (s + 0) :: k) = none := by
+        -- no later member carries the index s
+        have : ∀ (ms : List (KV V)) (t : Nat), t > s → get? (flattenFrom t ms) (idxKey s :: k) = none := by
+          intro ms
+          induction ms with
+          | nil => intro t _; simp [flattenFrom, get?]
+          | cons m' r' ih =>
+            intro t ht
+            simp only [flattenFrom]
+            rw [get?_append, ih (t + 1) (by omega)]
+            exact get?_map_prefix_ne m' _ _ k (fun e => by have := idxKey_inj _ _ e; omega)
+        simpa using this rest (s + 1) (by omega)
+      simp only [Nat.add_zero] at hrest ⊢
+      rw [hrest]
+      simp [get?_map_prefix]
+    | succ j' =>
+      have := get?_flattenFrom (s + 1) rest j' k
+      rw [show s + 1 + j' = s + (j' + 1) by omega] at this
+      rw [this]
+      simp only [List.getElem?_cons_succ]
+      cases hh : (rest[j']?).bind (fun m => get? m k) with
+      | some v => rfl
+      | none =>
+        simp only
+        exact get?_map_prefix_ne m _ _ k (fun e => by have := idxKey_inj _ _ e; omega)
+
+/-- **lazy stack with an operand of the same lazy structure** (another lazy stack with the same stack dim): the
+result holds, under member `j` and key `k`, `f` of the entries of member `j` under `k` on both sides -/
+theorem lazy_same_structure_pointwise (f : V → V → V) (A B : List (KV V)) (r : KV V)
+    (hnd : (keys (flattenLazy A)).Nodup)
+    (h : binop f (flattenLazy A) (.td (flattenLazy B)) .none = .ok r) (j : Nat) (k : Path) :
+    get? r (idxKey j :: k) = pair f ((A[j]?).bind (fun m => get? m k)) ((B[j]?).bind (fun m => get? m k)) := by
+  rw [(binop_pointwise f _ _ r hnd h).2]
+  have ha := get?_flattenFrom 0 A j k
+  have hb := get?_flattenFrom 0 B j k
+  simp only [Nat.zero_add] at ha hb
+  rw [flattenLazy, flattenLazy, ha, hb]
+
+/-- **lazy stack vs regular tensordict (finding C09-lazy-vs-dense-operand)**: the lazy side asks the other operand for
+keys that start with a member index; a regular tensordict has none, hence `KeyError` -/
+theorem lazy_vs_dense_raises (f : V → V → V) (A : List (KV V)) (b : KV V) (m0 : KV V) (q0 : Path × V) (rest : List (KV V))
+    (hA : A = (q0 :: m0) :: rest) (hb : ∀ k ∈ keys b, k.head? ≠ some (idxKey 0)) :
+    binop f (flattenLazy A) (.td b) .none = .error .key := by
+  apply binop_missing_key_raises f _ b (idxKey 0 :: q0.1)
+  · subst hA; simp [flattenLazy, flattenFrom, keys]
+  · intro hmem; exact hb _ hmem rfl
+
+/-- **two lazy stacks with different stack dims (finding C09-lazy-stackdim-mismatch)**, on 2x2 matrices: `self` stacks
+the rows, `other` stacks the columns; member `i` of self (row i) is added to member `i` of other (column i), so the
+re-stacked result is not the matrix sum. -/
+theorem lazy_stackdim_mismatch_counterexample :
+    let X : List (List Nat) := [[0, 1], [2, 3]]
+    let Y : List (List Nat) := [[10, 20], [30, 40]]
+    let rowsX : List (KV (List Nat)) := X.map (fun r => [(["a"], r)])
+    let colsY : List (KV (List Nat)) := [[(["a"], [10, 30])], [(["a"], [20, 40])]]
+    let add : List Nat → List Nat → List Nat := List.zipWith (· + ·)
+    ∃ R, lazyBinop add rowsX (.td (flattenLazy colsY)) .none = .ok R ∧
+      R.map (fun m => get? m ["a"]) = [some [10, 31], some [22, 43]] ∧
+      List.zipWith add X Y = [[10, 21], [32, 43]] :=
+  ⟨_, rfl, by decide, by decide⟩
+
+/-- **lazy stack vs batch-shaped tensor (finding C09-lazy-vs-tensor-operand)**: the leaves of a lazy stack are seen
+member by member (shape `s ++ feat`), the tensor keeps the stacked shape `n :: s`; `expand_as_right` rejects it
+as soon as the member has no feature dim to spare, or the first sizes disagree -/
+theorem lazy_vs_tensor_raises {α : Type} (t : T α) (dest : Shape) :
+    (dest.length < t.shape.length → expandAsRight t dest = .error .runtime) ∧
+    (∀ a ts b ds, t.shape = a :: ts → dest = b :: ds → a ≠ b → a ≠ 1 → expandAsRight t dest = .error .runtime) := by
+  constructor
+  · intro h; simp [expandAsRight, h]
+  · intro a ts b ds ht hd hab ha1
+    unfold expandAsRight
+    split
+    · rfl
+    · have : (List.zipWith (fun d e => d != e && d != 1) t.shape dest).any id = true := by
+        rw [ht, hd]; simp [hab, ha1]
+      simp [this]
+
+example : (expandAsRight (⟨[2, 3], fun c => c⟩ : T (List Nat)) [3]).toOption.isNone = true := by rfl
+example : (expandAsRight (⟨[2, 3], fun c => c⟩ : T (List Nat)) [3, 3]).toOption.isNone = true := by rfl
+
+theorem memberwise_get (g : KV V → Other V → Except Err (KV V)) : ∀ (A : List (KV V)) (Bs : List (Other V)) (R : List (KV V)),
+    memberwise g A Bs = .ok R → R.length = A.length ∧ A.length = Bs.length ∧
+      ∀ (j : Nat) (a : KV V) (b : Other V), A[j]? = some a → Bs[j]? = some b → ∃ r, R[j]? = some r ∧ g a b = .ok r
+  | [], [], R, h => by simp [memberwise] at h; subst h; simp
+  | [], _ :: _, R, h => by simp [memberwise] at h
+  | _ :: _, [], R, h => by simp [memberwise] at h
+  | a0 :: as, b0 :: bs, R, h => by
+    simp only [memberwise] at h
+    cases hg : g a0 b0 with
+    | error e => simp [hg] at h
+    | ok r0 =>
+      simp only [hg] at h
+      cases hr : memberwise g as bs with
+      | error e => simp [hr] at h
+      | ok rs =>
+        simp only [hr] at h; injection h with h; subst h
+        obtain ⟨h1, h2, h3⟩ := memberwise_get g as bs rs hr
+        refine ⟨by simp [h1], by simp [h2], fun j a b ha hb => ?_⟩
+        cases j with
+        | zero => simp at ha hb; subst ha; subst hb; exact ⟨r0, by simp, hg⟩
+        | succ j' => simp at ha hb; simpa using h3 j' a b ha hb
+
+/-- **lazy stack with an operand that is not stacked alike, after the repair** (regular tensordict, lazy stack along
+another dim): member `j` of the result holds under `k` the op of member `j` of self and of the `j`-th slice of the
+operand along self's stack dim, entries matched by key -/
+theorem lazy_memberwise_pointwise (f : V → V → V) (A : List (KV V)) (Bs : List (KV V)) (R : List (KV V))
+    (h : lazyBinopRepaired f A (.split (Bs.map Other.td)) .none = .ok R)
+    (j : Nat) (a b : KV V) (ha : A[j]? = some a) (hb : Bs[j]? = some b) (hnd : (keys a).Nodup) :
+    ∃ r, R[j]? = some r ∧ keys r = keys a ∧ ∀ k, get? r k = pair f (get? a k) (get? b k) := by
+  simp only [lazyBinopRepaired] at h
+  obtain ⟨_, _, h3⟩ := memberwise_get _ A _ R h
+  obtain ⟨r, hr, hg⟩ := h3 j a (.td b) ha (by simp [hb])
+  exact ⟨r, hr, binop_pointwise f a b r hnd hg⟩
+
 /-! ## summary statements and non-vacuity -/
 
 /-- **keys_mismatch_raises_or_default.** `default=None` (and every in-place form): a key on one side only
@@ -701,5 +978,36 @@ example : castReduction ⟨true, true, false⟩ [2, 3] (some ["x", "y"]) (.tuple
 example : castReduction ⟨true, true, false⟩ [2, 3] none (.int 2) none = .error .index := by rfl
 example : (expandAsRight (⟨[2, 1], fun c => c⟩ : T (List Nat)) [2, 3, 4]).map (fun r => r.get [1, 2, 3])
     = .ok [1, 0] := by rfl
+
+/-! ## `reduce=True` without `dim`: value level -/
+
+/-- **reduce_all_order_irrelevant**: a full reduction (`reduce=True`, no `dim`) does not depend on the order in which
+the entries are stored -- nor, in fact, on how the values are distributed over the entries. -/
+theorem reduce_all_order_irrelevant (op : RedOp) {kv' kv : KV (List Num)} (h : kv'.Perm kv) :
+    reduceAll op kv' = reduceAll op kv := by
+  have hp := flatAll_perm h
+  unfold reduceAll reduceList
+  cases op <;> simp only [hasNan_perm hp, nanSum_perm hp, nanProd_perm hp, nanCount_perm hp, nanMax_perm hp,
+    nanMin_perm hp, hp.length_eq]
+
+/-- **reduce_all_sum_of_leaf_sums**: the total is the sum of the leaf totals, and the number of (non-NaN) values the
+sum of the leaf counts: a mean over all values is the COUNT-WEIGHTED combination of leaf means, never their plain mean -/
+theorem reduce_all_sum_of_leaf_sums (kv : KV (List Num)) :
+    nanSum (flatAll kv) = (kv.map (fun q => nanSum q.2)).foldr (· + ·) 0 ∧
+    nanCount (flatAll kv) = (kv.map (fun q => nanCount q.2)).foldr (· + ·) 0 := by
+  induction kv with
+  | nil => simp [flatAll, nanSum, nanCount]
+  | cons q rest ih => simp [flatAll, nanSum_append, nanCount_append, ih.1, ih.2]
+
+/-- **mean_of_leaf_means_counterexample**: with leaves of different sizes (or different numbers of NaNs) the mean of
+the leaf means is not the mean of all values: leaves `[0, 0]` and `[6]` have means 0 and 6, whose mean is 3, while the
+mean of the three values is 2; likewise for `nanmean` with leaves `[0, NaN… ]`. -/
+theorem mean_of_leaf_means_counterexample :
+    let kv : KV (List Num) := [(["a"], [some 0, some 0]), (["b"], [some 6])]
+    reduceAll .mean kv = .ratio 6 3 ∧ reduceLeafwise .mean kv = [.ratio 0 2, .ratio 6 1] ∧
+    let kv' : KV (List Num) := [(["a"], [some 0, none]), (["b"], [some 3, some 3])]
+    reduceAll .nanmean kv' = .ratio 6 3 ∧ reduceLeafwise .nanmean kv' = [.ratio 0 1, .ratio 6 2] := by
+  decide
+
 
 end TdVerif.Props.C09
